@@ -481,6 +481,18 @@ def gen_versions(src: Path):
                 names = ["__y", "__m", "__d"]
                 last = i
                 break
+            # released = tuple(int(p) for p in parts)  /  tuple([int(p) for p in parts])  /  tuple(map(int, parts))
+            if isinstance(tgt, ast.Name) and not names and isinstance(val, ast.Call) and getattr(val.func, "id", None) == "tuple" \
+                    and len(val.args) == 1 and not val.keywords and (
+                        (isinstance(val.args[0], (ast.ListComp, ast.GeneratorExp)) and isinstance(val.args[0].elt, ast.Call)
+                         and getattr(val.args[0].elt.func, "id", None) == "int" and len(val.args[0].elt.args) == 1
+                         and len(val.args[0].generators) == 1 and not val.args[0].generators[0].ifs)
+                        or (isinstance(val.args[0], ast.Call) and getattr(val.args[0].func, "id", None) == "map"
+                            and len(val.args[0].args) == 2 and getattr(val.args[0].args[0], "id", None) == "int")):
+                tuple_name = tgt.id
+                names = ["__y", "__m", "__d"]
+                last = i
+                break
             # year = int(parts[0]) ... in order
             if isinstance(tgt, ast.Name) and is_int_of_part(val, len(names)):
                 names.append(tgt.id)
